@@ -2,7 +2,7 @@ SPECIFICATION Spec
 CONSTANTS
   Clients = {1, 2, 3}
   Start = 16777214
-  MaxChanges = 5
+  MaxChanges = 3
 INVARIANTS Monotone StrictAfterChange OneEntry DirtyRegistered
 CONSTRAINT Bound
 CHECK_DEADLOCK FALSE
